@@ -6,13 +6,15 @@ import PyndlDriver.OpsAct
 import PyndlDriver.OpsWH
 import PyndlDriver.OpsAttrs
 import PyndlDriver.OpsBand
+import PyndlDriver.OpsCorr
+import PyndlDriver.OpsFilter
 
 open Lean
 
 namespace PyndlDriver
 
 def plugins : List (String → Json → Option (M Json)) :=
-  [handleCreate?, handleText?, handleCorpus?, handleAct?, handleWH?, handleAttrs?, handleBand?]
+  [handleCreate?, handleText?, handleCorpus?, handleAct?, handleWH?, handleAttrs?, handleBand?, handleCorr?, handleFilter?]
 
 def handlePlugin? (op : String) (j : Json) : Option (M Json) :=
   plugins.findSome? (fun h => h op j)
